@@ -137,6 +137,23 @@ CHECKS['C19'] = dict(cat='proof', ref='DESIGN.md §7 C19, notes/C19.md',
   technique='Coq proof over a Gallina model of capabilities.rego gates, main.rego notice gate, linter.go dedup/counter, plus/minus + differential correspondence',
   note=TB + ' Two defects repaired in /repo (f7a7fe3 nil decl panic, bda07f4 plus declarations dropped).')
 
+CHECKS['C06'] = dict(cat='proof', ref='DESIGN.md §7 C06, notes/C06.md',
+  text='Kernel-checked, axiom-free, for ALL comment sets and violations: ignored <=> a directive comment naming exactly the title sits on the same row or the row above; names = comma list with arbitrary '
+       'whitespace, exact byte match; reported = raw minus exactly the ignored ones; JSON string keys round-trip; inserting a directive line / appending a trailing directive removes precisely the named violations of '
+       'the covered rows and shifts the rest (row-equivariance of rule bodies and parser as named hypotheses; exact general effect also proved); the aggregate report of one run, and of any split into runs that hands the '
+       'exported directives on, applies each file its own directives. Compared with ast.ignore_directives/_ignored/keys_to_numbers through OPA on the real bundle and with linter.Lint before/after every violation x 4 '
+       'placements x 4 spellings for built-in, custom and aggregate rules (one-shot, two-phase, mixed).',
+  technique='Coq proof over a Gallina model of comments.rego/main.rego/util.rego/linter.go carry + differential correspondence (OPA helper evaluation, metamorphic lint runs, vm_compute)',
+  note=TB + ' Valid UTF-8 comment text; H_shift observed per case, not proved. Defect repaired in /repo 4817eed (aggregate-only runs ignored no directives).')
+
+CHECKS['C09'] = dict(cat='proof', ref='DESIGN.md §7 C09, notes/C09.md',
+  text='Kernel-checked, axiom-free: for ALL rule bodies with order-independent aggregate_report, all workspaces of >=2 distinctly named files, every partition into collect runs, every merge order and completion order, '
+       'the two-phase aggregate violations equal the one-shot ones as multisets (bundled+custom rules, empty marker, inline ignores); the language-server cache refines file -> multiset of entries, and one edit '
+       '(re-collect, SetFileAggregates, SetFileIgnoreDirectives, report from cache) equals one Lint over the updated workspace unless a custom rule is present by its empty marker alone (_refuted witness, open finding). '
+       'Rule bodies tabulated by direct OPA evaluation; compared with linter.Lint over all partitions of <=4 (5) files x merge orders, replace/add/delete histories, cache.Cache and updateFile/AllDiagnostics (overlay).',
+  technique='Coq proof over a Gallina model of the collect/report split (linter.go, main.rego) and lsp/cache + differential correspondence (oracle tables, public API, go test -overlay)',
+  note=TB + ' H_aggperm observed on every oracle row. Defects repaired in /repo 4817eed, 42020a4; open: cache loses the empty-aggregate marker of custom rules (latent, LSP loads no custom rules).')
+
 NOT_YET = {}
 
 def main():
